@@ -44,8 +44,11 @@ namespace GeographicLib {
       throw GeographicErr("Equatorial radius is not positive");
     if (!(isfinite(_b) && _b > 0))
       throw GeographicErr("Polar semi-axis is not positive");
-    fill(_c, _c + Lmax * AUXNUMBER * AUXNUMBER,
-         numeric_limits<real>::quiet_NaN());
+    // Fill all the coefficient blocks now so that the const conversion
+    // functions never write to _c (and so are safe to call concurrently).
+    for (int auxout = 0; auxout < AUXNUMBER; ++auxout)
+      for (int auxin = 0; auxin < AUXNUMBER; ++auxin)
+        fillcoeff(auxin, auxout, ind(auxout, auxin));
   }
 
   /// \cond SKIP
@@ -71,8 +74,11 @@ namespace GeographicLib {
       throw GeographicErr("Equatorial radius is not positive");
     if (!(isfinite(_b) && _b > 0))
       throw GeographicErr("Polar semi-axis is not positive");
-    fill(_c, _c + Lmax * AUXNUMBER * AUXNUMBER,
-         numeric_limits<real>::quiet_NaN());
+    // Fill all the coefficient blocks now so that the const conversion
+    // functions never write to _c (and so are safe to call concurrently).
+    for (int auxout = 0; auxout < AUXNUMBER; ++auxout)
+      for (int auxin = 0; auxin < AUXNUMBER; ++auxin)
+        fillcoeff(auxin, auxout, ind(auxout, auxin));
   }
   /// \endcond
 
@@ -296,7 +302,6 @@ namespace GeographicLib {
 
   AuxAngle AuxLatitude::Convert(int auxin, int auxout, const AuxAngle& zeta,
                                 bool exact) const {
-    using std::isnan;           // Needed for Centos 7, ubuntu 14
     int k = ind(auxout, auxin);
     if (k < 0) return AuxAngle::NaN();
     if (auxin == auxout) return zeta;
@@ -307,7 +312,6 @@ namespace GeographicLib {
       else
         return ToAuxiliary(auxout, FromAuxiliary(auxin, zeta));
     } else {
-      if ( isnan(_c[Lmax * (k + 1) - 1]) ) fillcoeff(auxin, auxout, k);
       AuxAngle zetan(zeta.normalized());
       real d = Clenshaw(true, zetan.y(), zetan.x(), _c + Lmax * k, Lmax);
       zetan += AuxAngle::radians(d);
@@ -432,7 +436,7 @@ namespace GeographicLib {
   }
 
   /// \cond SKIP
-  void AuxLatitude::fillcoeff(int auxin, int auxout, int k) const {
+  void AuxLatitude::fillcoeff(int auxin, int auxout, int k) {
 #if GEOGRAPHICLIB_AUXLATITUDE_ORDER == 4
     static const real coeffs[] = {
       // C[phi,phi] skipped
